@@ -970,6 +970,24 @@ fn collect_positions<C: FromIterator<u8> + FromIterator<u16> + FromIterator<u32>
 
 /// bit structures. `bits` is the plain bit sequence for bool-based paths;
 /// `pos` the list of positions for position-based paths.
+/// a bit structure over `base` zeros followed by `tail` (positions beyond 2^32)
+pub fn make_big(kind: &str, base: usize, tail: Vec<bool>) -> Option<Box<dyn Obj>> {
+    let mut bvm = BitVectorMut::with_zeros(base);
+    bvm.extend(tail);
+    if kind == "BVM" {
+        return Some(Box::new(bvm));
+    }
+    let bv = BitVector::from(bvm);
+    match kind {
+        "BV" => Some(Box::new(bv)),
+        "RSN" => Some(Box::new(RSNarrow::new(bv))),
+        "RSW" => Some(Box::new(RSWide::new(bv))),
+        "DA0" => Some(Box::new(DArray::<false>::new(bv))),
+        "DA1" => Some(Box::new(DArray::<true>::new(bv))),
+        _ => None,
+    }
+}
+
 pub fn make_bits(kind: &str, path: &str, ty: &str, bits: Vec<bool>, pos: Vec<i128>, n: usize) -> Option<Box<dyn Obj>> {
     if path == "default" {
         return match kind {
